@@ -60,6 +60,8 @@ class ItemList(ItemContainerBase):
         """
         self._check_class(value, allow_none=True)
         self._allocate(index - 1)
+        if index < 0:
+            index = max(len(self.__list) + index, 0)
         self.__list.insert(index, value)
         if value is None:
             self._cleanup()
